@@ -37,6 +37,11 @@ CLAIMED = {
          "ack <= consumed <= appended and queue-ack <= min(group acks): comparison facts that hold on every path to the store inside one lock hold; resets that write all positions "
          "from one value; the constructor's initial pair proved ordered through the clamps; Sync's argument proved a running minimum that visits every group; truncation strictly "
          "below the ack's page and reachable only from GC; persistence of every store to the agreed meta offset. Necessary conditions for all histories/schedules; readability of bytes is not decided."),
+ 'C01': ("static analysis: ok-dominance and never-before rules over the commit, journal and recovery code (incl. deferred effects through helpers), lock-hold atomicity, whole-program ownership of file-system mutators, codec sequence/field agreement, registry exhaustiveness, snapshot/Clone completeness",
+         "Decides, for every path of the code as written, the protocol shape a crash-atomic commit needs: close(ok) before the NewFile record; one edit log per flush and that log committed; the pending mark never released before the commit (also through helpers and defers); compaction outputs registered after close and "
+         "installed only after a successful merge; write then sync per manifest record; next-file-number record, persist(ok), apply-to-clone, install in one write hold; journal created, snapshotted(ok), CURRENT switched by tmp+rename(ok), then adopted; replay(ok) before the new journal; obsolete manifests deleted only after "
+         "recovery, never the live one, only from newStore; os mutators only via owned seams; each Log codec symmetric per field, every Log type registered, snapshot re-emits every additive record kind and the next FILE number, Clone carries every component; a new table's number is one value through allocate/pending/create. "
+         "File-system semantics and replayed contents are not decided."),
  'C05': ("static analysis: lock-hold dataflow (ATOMIC), dominance (ORDER), value provenance and writer/reader layout agreement over go/ssa",
          "Decides, for every path of the append code as written, that one Put is a single write hold of queue.rwMutex covering cursor advance, data write, "
          "index entry, meta write and sequence publication; that data<index<meta<publish<signal is the only order; that the published sequence is appendedSeq+1 "
